@@ -448,6 +448,66 @@ func (g *gen) histFill() {
 	os.RemoveAll(dir)
 }
 
+// histTTL (C01): the deliberate sleep-across-expiry scenario.  Keys are
+// written so that they expire 1, 2 and 3 seconds from now (exact timestamps
+// through PutWithTimestamp, clock timestamps through Put); the bucket is
+// read a little after the start of every following second, so that each read
+// falls entirely into one Unix second - including the second in which
+// now == timestamp + TTL, where the pair must already be gone.
+func (g *gen) histTTL() {
+	mode := modeOf(g.c.Mode, g.r)
+	rw := rwOf(g.c.RW, g.r)
+	dir := fmt.Sprintf("%s/db-%d", g.c.Tmp, g.hist)
+	os.RemoveAll(dir)
+	g.u = &hx.Universe{KvBuckets: []string{"b1"}}
+	g.newSess(dir, mode, rw, 512)
+	g.s.R.Emit(hx.Ev{"op": "reset", "mode": int(mode), "rw": int(rw), "seg": 512, "hist": g.hist, "family": "ttl"})
+	if err := g.s.OpenFirst(); err != nil {
+		fmt.Fprintln(os.Stderr, "harness: first open failed:", err)
+		os.Exit(2)
+	}
+	untilNextSecond := func(frac time.Duration) {
+		now := time.Now()
+		next := now.Truncate(time.Second).Add(time.Second + frac)
+		time.Sleep(next.Sub(now))
+	}
+	untilNextSecond(100 * time.Millisecond)
+	t0 := uint64(time.Now().Unix())
+	keys := []string{"a", "ab", "b", "k1", "k2", "c"}
+	g.update(func(t *hx.Tx) {
+		t.PutTS("b1", []byte("a"), []byte("exp+1"), 10, t0-10+1)
+		t.PutTS("b1", []byte("ab"), []byte("exp+2"), 20, t0-20+2)
+		t.PutTS("b1", []byte("b"), []byte("exp+3"), 3, t0)
+		t.Put("b1", []byte("k1"), []byte("ttl2"), 2)
+		t.Put("b1", []byte("k2"), []byte("forever"), 0)
+		t.PutTS("b1", []byte("c"), []byte("gone"), 5, t0-5)
+	})
+	for sec := 0; sec < 5; sec++ {
+		for rep := 0; rep < 2; rep++ {
+			g.view(func(t *hx.Tx) {
+				for _, k := range keys {
+					t.Get("b1", []byte(k))
+				}
+				t.GetAll("b1")
+				t.RangeScan("b1", []byte("a"), []byte("z"))
+				t.PrefixScan("b1", []byte(""), 0, nutsdb.ScanNoLimit)
+				t.PrefixScan("b1", []byte("a"), 0, 1)
+			})
+			time.Sleep(300 * time.Millisecond)
+		}
+		if sec == 2 {
+			g.s.Close()
+			if g.s.Open() != nil {
+				return
+			}
+		}
+		untilNextSecond(100 * time.Millisecond)
+	}
+	g.s.Obs()
+	g.s.Close()
+	os.RemoveAll(dir)
+}
+
 // ---------------------------------------------------------------- data structures
 
 func (g *gen) idx(n int) int { return g.r.Intn(2*n+4) - n - 2 } // -n-2 .. n+1
@@ -1157,6 +1217,8 @@ func main() {
 			g.histKV()
 		case "fill":
 			g.histFill()
+		case "ttl":
+			g.histTTL()
 		case "bptree": // component check of the in-memory B+ tree (several levels)
 			g.histBPTree()
 		case "conc": // C14: several databases, mixed readers and writers
